@@ -2,12 +2,13 @@ package gosym
 
 import (
 	"fmt"
-	"os"
-	"strings"
 	"go/constant"
 	"go/token"
 	"go/types"
 	"math"
+	"os"
+	"runtime"
+	"strings"
 	"unicode/utf8"
 
 	"golang.org/x/tools/go/ssa"
@@ -55,16 +56,16 @@ type panicState struct {
 }
 
 type G struct {
-	id       int
-	stack    []*Frame
-	status   gStatus
-	ready    func() bool
-	resume   func()
-	panicking *panicState
+	id           int
+	stack        []*Frame
+	status       gStatus
+	ready        func() bool
+	resume       func()
+	panicking    *panicState
 	schedChecked bool
-	parkOK   bool // blocked at an allowed parking point
-	idleWaiter bool
-	waitDesc string
+	parkOK       bool // blocked at an allowed parking point
+	idleWaiter   bool
+	waitDesc     string
 }
 
 func (e *Engine) newG() *G {
@@ -379,9 +380,24 @@ func (e *Engine) goPanicRuntime(msg string) {
 	panic(goPanicSignal{val: Iface{t: e.runtimeErrType(), v: Str{s: "runtime error: " + msg}}, msg: "runtime error: " + msg})
 }
 
+const memLimitBytes = 6 << 30
+
 // step executes one instruction; returns true when the goroutine must yield.
 func (e *Engine) step(g *G, fr *Frame) (yield bool) {
 	e.steps++
+	if e.steps&0xfffff == 0 {
+		// memory guard: a worker that grows beyond its share ends the path as out-of-budget
+		// instead of being killed (and taking the machine with it)
+		var ms runtime.MemStats
+		runtime.ReadMemStats(&ms)
+		if ms.HeapAlloc > memLimitBytes {
+			runtime.GC()
+			runtime.ReadMemStats(&ms)
+			if ms.HeapAlloc > memLimitBytes {
+				panic(pathEnd{kind: endBudget, msg: fmt.Sprintf("worker heap above %d MiB", memLimitBytes>>20)})
+			}
+		}
+	}
 	if e.steps > e.opts.MaxSteps {
 		panic(pathEnd{kind: endBudget, msg: fmt.Sprintf("more than %d SSA steps on one path", e.opts.MaxSteps)})
 	}
